@@ -81,6 +81,7 @@ Proof.
     destruct (r_digest x) as [d|].
     2:{ destruct en; [apply IH; auto|]. destruct (fixed_P8 fl); [apply IH; auto|intros E; injection E as <- <-; auto]. }
     destruct (needs_copy fl f en (cache_addr (r_path x) d)); [|apply IH; auto].
+    destruct (fixed_P47 fl && negb (obj_exists f (cache_addr (r_path x) d))); [apply IH; auto|].
     pose proof (proj1 (rfc_spec f (r_path x) (cache_addr (r_path x) d) Copy F)) as F1.
     destruct (recheck_from_cache f (r_path x) (cache_addr (r_path x) d) Copy) as [f1 [| |]]; cbn [fst] in F1.
     + apply IH; auto.
